@@ -275,7 +275,80 @@ def dh_secret_width(vc):
 # "unwrapping refuses ephemeral points that are not on the curve / have coordinates >= p": the decoded coordinates reach the
 # validating constructor unchanged and are tested against P-256 (contracts proved under C19, obligations here too)
 from pyvc.harness import reuse as _reuse
-from contracts import C19 as _C19x  # noqa: E402,F401
 _reuse("C19/VerifyingKey.from_string.decoded-point-reaches-validation-unchanged", "C09/unwrap.decoded-ephemeral-point-reaches-validation-unchanged")
 _reuse("C19/VerifyingKey.from_public_point.validates-against-the-key's-curve", "C09/unwrap.validated-against-P-256")
 _reuse("C19/Public_key.point-validation", "C09/unwrap.accepted<=>in-range-and-on-curve")
+
+
+# ---------------------------------------------------------------------------------------
+# the registered key classes (appnotes/register_crypto_plugin/__init__.py): thin adapters over the ecdsa package - every
+# one hands exactly its argument on and wraps exactly what comes back; malformed public keys surface as ValueError (what
+# InitEccAuthBlock / EccDecryptor callers are promised), key pairs are generated on P-256.
+
+@proof("C09/plug-in.key-proxies", functions=[("register_crypto_plugin", "PublicEccKeyProxy.__init__"),
+                                             ("register_crypto_plugin", "PublicEccKeyProxy.create_from_der_fmt"),
+                                             ("register_crypto_plugin", "PublicEccKeyProxy.to_der_fmt"),
+                                             ("register_crypto_plugin", "PrivateEccKeyProxy.__init__"),
+                                             ("register_crypto_plugin", "PrivateEccKeyProxy.create_from_der_fmt"),
+                                             ("register_crypto_plugin", "PrivateEccKeyProxy.generate"),
+                                             ("register_crypto_plugin", "PrivateEccKeyProxy.public_key"),
+                                             ("register_crypto_plugin", "random_bytes")],
+       family=lambda seed, tier: [dict()])
+def key_proxies(vc):
+    R = vc.module("register_crypto_plugin")
+    C = vc.module("register_crypto_plugin.ecdsa.curves")
+    log = []
+    real_vk, real_sk, real_ur = R.VerifyingKey, R.SigningKey, R.os.urandom
+
+    class VK:
+        @classmethod
+        def from_der(cls, *a, **k):
+            log.append(("vk.from_der", a, k))
+            if a and a[0] == b"MALFORMED-POINT":
+                raise R.MalformedPointError("point")
+            if a and a[0] == b"BAD-DER":
+                raise R.UnexpectedDER("der")
+            return "VK-OBJECT"
+
+    class SK:
+        verifying_key = "ITS-VERIFYING-KEY"
+
+        @classmethod
+        def from_der(cls, *a, **k):
+            log.append(("sk.from_der", a, k))
+            return "SK-OBJECT"
+
+        @classmethod
+        def generate(cls, *a, **k):
+            log.append(("sk.generate", a, k))
+            return SK()
+
+    R.VerifyingKey, R.SigningKey = VK, SK
+    R.os.urandom = lambda n: (log.append(("urandom", n)), b"u" * n)[1]
+    try:
+        pub = R.PublicEccKeyProxy.create_from_der_fmt(b"PUBLIC-DER")
+        vc.ground("public.create_from_der_fmt=proxy(VerifyingKey.from_der(der))", isinstance(pub, R.PublicEccKeyProxy)
+                  and pub.public_key == "VK-OBJECT" and log[-1] == ("vk.from_der", (b"PUBLIC-DER",), {}), repr(log[-1:]))
+        for bad in (b"MALFORMED-POINT", b"BAD-DER"):
+            o = vc.call(R.PublicEccKeyProxy.create_from_der_fmt, bad)
+            vc.ground("public.malformed-key=>ValueError[%s]" % bad.decode(), o.raised(ValueError), repr(o.exc))
+
+        class Key:
+            def to_der(self, *a, **k):
+                log.append(("to_der", a, k))
+                return b"DER-OF-THE-KEY"
+        vc.ground("public.to_der_fmt=public_key.to_der()(default-options:uncompressed,named-curve)",
+                  R.PublicEccKeyProxy(Key()).to_der_fmt() == b"DER-OF-THE-KEY" and log[-1] == ("to_der", (), {}), repr(log[-1:]))
+        prv = R.PrivateEccKeyProxy.create_from_der_fmt(b"PRIVATE-DER")
+        vc.ground("private.create_from_der_fmt=proxy(SigningKey.from_der(der))", isinstance(prv, R.PrivateEccKeyProxy)
+                  and prv.private_key == "SK-OBJECT" and log[-1] == ("sk.from_der", (b"PRIVATE-DER",), {}), repr(log[-1:]))
+        g = R.PrivateEccKeyProxy.generate()
+        vc.ground("private.generate=proxy(SigningKey.generate(P-256))", isinstance(g, R.PrivateEccKeyProxy) and isinstance(g.private_key, SK)
+                  and log[-1][0] == "sk.generate" and (log[-1][2].get("curve") or (log[-1][1] or [None])[0]) is C.NIST256p
+                  and R.PrivateEccKeyProxy.CURVE is C.NIST256p, repr(log[-1:]))
+        vc.ground("private.public_key=proxy(of-ITS-verifying-key)", isinstance(g.public_key, R.PublicEccKeyProxy)
+                  and g.public_key.public_key == "ITS-VERIFYING-KEY")
+        vc.ground("random_bytes(n)=os.urandom(n)", R.random_bytes(16) == b"u" * 16 and log[-1] == ("urandom", 16))
+    finally:
+        R.VerifyingKey, R.SigningKey, R.os.urandom = real_vk, real_sk, real_ur
+    vc.cover("proxies")
